@@ -51,6 +51,12 @@ impl FsPathBuf {
     pub fn file_name(&self) -> (r: Option<&VxOsStr>)
         ensures r.is_some() == file_name_of(self.key()).is_some(), r.is_some() ==> r.unwrap().text() == file_name_of(self.key()).unwrap() { unimplemented!() }
     #[verifier::external_body]
+    pub fn file_stem(&self) -> (r: Option<&VxOsStr>)
+        ensures r.is_some() == file_stem_of(self.key()).is_some(), r.is_some() ==> r.unwrap().text() == file_stem_of(self.key()).unwrap() { unimplemented!() }
+    #[verifier::external_body]
+    pub fn extension(&self) -> (r: Option<&VxOsStr>)
+        ensures r.is_some() == extension_of(self.key()).is_some(), r.is_some() ==> r.unwrap().text() == extension_of(self.key()).unwrap() { unimplemented!() }
+    #[verifier::external_body]
     pub fn join(&self, p: VxOsString) -> (r: FsPathBuf) ensures r.key() == path_join(self.key(), p.text()) { unimplemented!() }
     #[verifier::external_body]
     pub fn with_extension(&self, e: &Str) -> (r: FsPathBuf) ensures r.key() == path_with_ext(self.key(), e@) { unimplemented!() }
@@ -58,6 +64,8 @@ impl FsPathBuf {
     pub fn display(&self) -> (r: Str) ensures r@ == self.key() { unimplemented!() }
 }
 pub uninterp spec fn file_name_of(p: Seq<char>) -> Option<Seq<char>>;
+pub uninterp spec fn file_stem_of(p: Seq<char>) -> Option<Seq<char>>;
+pub uninterp spec fn extension_of(p: Seq<char>) -> Option<Seq<char>>;
 pub uninterp spec fn path_join(dir: Seq<char>, name: Seq<char>) -> Seq<char>;
 pub uninterp spec fn path_with_ext(p: Seq<char>, ext: Seq<char>) -> Seq<char>;
 #[verifier::external_body]
